@@ -741,3 +741,39 @@ Lemma rank_ratio_perm d sp rows rows' g r :
 Proof.
   intros P. split; apply afun_val_perm; auto; intros [H|[[n [dv H]]|[n [dv H]]]]; discriminate.
 Qed.
+
+(* =============================================================== the headline statement in one piece (dataset level, rows frame) *)
+Lemma Forall2_nth_error {A B} (R : A -> B -> Prop) l l' : Forall2 R l l' ->
+  forall k x y, nth_error l k = Some x -> nth_error l' k = Some y -> R x y.
+Proof.
+  intros F. induction F as [|a b l l' Hab F IH]; intros [|k] x y Hx Hy; simpl in *; try discriminate.
+  - injection Hx as <-. injection Hy as <-. exact Hab.
+  - eapply IH; eassumption.
+Qed.
+
+Lemma nth_error_seq_lt a n j : j < n -> nth_error (seq a n) j = Some (a + j).
+Proof.
+  revert a j. induction n as [|n IH]; intros a [|j] H; simpl; try lia.
+  - rewrite Nat.add_0_r. reflexivity.
+  - rewrite IH by lia. f_equal. lia.
+Qed.
+
+Lemma d_analytic_rows_value f sp d d' k r r' j v :
+  windowed f = true -> w_mode (eff_window sp) = Rows -> uniq_keys (d_rows d) = true ->
+  d_analytic f sp d = Ok d' ->
+  nth_error (d_rows d) k = Some r -> nth_error (d_rows d') k = Some r' ->
+  j < List.length (d_ms d) -> nth_error (snd r') j = Some v ->
+  fst r' = fst r /\
+  let S := sorted_part d sp (d_rows d) r in
+  exists i, nth_error S i = Some r /\
+    v = agg f (map (meas j)
+          (map snd (filter (fun jx => in_frame (w_lo (eff_window sp)) (w_hi (eff_window sp)) i (fst jx))
+                           (combine (seq 0 (List.length S)) S)))).
+Proof.
+  intros W M U H Hr Hr' Hj Hv. destruct (d_analytic_spec _ _ _ _ H) as [_ [_ [_ F]]].
+  destruct (Forall2_nth_error _ _ _ F _ _ _ Hr Hr') as [Hf Fv]. split; [exact Hf|].
+  pose proof (Forall2_nth_error _ _ _ Fv j j v (nth_error_seq_lt 0 _ j Hj) Hv) as Hval. simpl in Hval.
+  rewrite afun_val_windowed in Hval by exact W. injection Hval as <-.
+  destruct (win_rows_rows d sp (d_rows d) r (nth_error_In _ _ Hr) U M) as [i [Hi Hw]].
+  exists i. split; [exact Hi|]. rewrite Hw. reflexivity.
+Qed.
